@@ -99,13 +99,17 @@ def prefix(c, cs):
                                      pats=lambda k: [cs_at(c.new, cs, k)]))]
 
 
+def CHN(c):
+    return T(c.a["channel"] if "channel" in c.a else c.a["channel_id"])
+
+
 def S(c, heap=None):
     """the _ChannelSchedule self[channel]"""
-    return sch_get(heap or c.old, T(c.self), T(c.channel))
+    return sch_get(heap or c.old, T(c.self), CHN(c))
 
 
 def has_channel(c):
-    return ("channel-declared", sch_has(c.old, T(c.self), T(c.channel)))
+    return ("channel-declared", sch_has(c.old, T(c.self), CHN(c)))
 
 
 SLOTS = "_ChannelSchedule.slots"
@@ -389,6 +393,7 @@ contract(SF, "_Schedule.wait_for_fall", props=("C02", "C10", "C15"),
 # _find_add_delay  (C03)
 # --------------------------------------------------------------------------
 from pyvc.core import Qid, PStr, str_const  # noqa: E402
+NO_DELAY = str_const("no-delay")
 
 
 def nonempty_inter(a, b):
@@ -413,8 +418,8 @@ def fall_min(h, cs, slot):
 def fad_ctx(c):
     h = c.old
     sch = T(c.self)
-    chan = T(c.a["channel"])
-    prot = T(c.a["protocol"])
+    chan = CHN(c)
+    prot = T(c.a["protocol"]) if "protocol" in c.a else NO_DELAY
     mine = sch_get(h, sch, chan)
     T0 = s_targets(cs_at(h, mine, cs_len(h, mine) - 1))
     return h, sch, chan, prot, T0
@@ -597,7 +602,6 @@ lemma("L-first-retarget", lrt_build,
 # --------------------------------------------------------------------------
 from .lib import PJT, p_phase as _pph  # noqa: E402
 from .pulse import valid_pulse  # noqa: E402
-NO_DELAY = str_const("no-delay")
 
 
 def mnps_requires(c):
@@ -658,6 +662,7 @@ def mnps_ensures(c):
         ("no-delay-starts-at-end-or-barrier", z3.Implies(nodelay, z3.Or(
             ti == t0, seq_some(bts, lambda b: ti == b),
             z3.And(D > 0, z3.Or(low < t0 + m, seq_some(bts, lambda b: low < z3.If(b >= t0 + m, b, t0 + m))))))),
+        ("no-delay-exact-when-barriers-passed", z3.Implies(z3.And(nodelay, seq_all(bts, lambda b: b <= t0)), ti == t0)),
         ("no-conflict", Q([PStr, I], lambda kk, k: (z3.And(z3.Not(nodelay), sch_has(h, sch, kk), kk != chan, most_recent_conflicting(h, sch_get(h, sch, kk), k, T0, prot)),
                                                   ti >= s_tf(cs_at(h, sch_get(h, sch, kk), k)) + fall_min(h, sch_get(h, sch, kk), cs_at(h, sch_get(h, sch, kk), k))),
                           pats=lambda kk, k: [cs_at(h, sch_get(h, sch, kk), k)])),
@@ -719,6 +724,7 @@ def add_pulse_ensures(c):
         ("pulse-slot", z3.And(s_kind(new) == PULSE, s_tf(new) == s_ti(new) + p_duration(T(c.pulse)), s_targets(new) == s_targets(last),
                               p_duration(s_pulse(new)) == p_duration(T(c.pulse)), z3.Implies(c.phase_drift_params.none, s_pulse(new) == T(c.pulse)))),
         ("no-gap", z3.Implies(n1 == n0 + 1, s_ti(new) == t0)),
+        ("no-delay-appends-just-the-pulse", z3.Implies(z3.And(nodelay, seq_all(c.phase_barrier_ts, lambda b: b <= t0)), n1 == n0 + 1)),
         ("after-phase-barriers", seq_all(c.phase_barrier_ts, lambda b: s_ti(new) >= b)),
         ("no-conflict", Q([PStr, I], lambda kk, k: (z3.And(z3.Not(nodelay), sch_has(h, sch, kk), kk != chan, most_recent_conflicting(h, sch_get(h, sch, kk), k, T0, prot)),
                                                   s_ti(new) >= s_tf(cs_at(h, sch_get(h, sch, kk), k)) + fall_min(h, sch_get(h, sch, kk), cs_at(h, sch_get(h, sch, kk), k))),
@@ -776,4 +782,178 @@ contract(SF, "_Schedule.add_target", props=("C02", "C10", "C09"),
                  "RuntimeError": ("only-if", lambda c: z3.Not(sch_maxdur_none(T(c.self))))},
          modifies={SLOTS: lambda c: [S(c)]},
          exc_safe=True,
+         )
+
+
+# --------------------------------------------------------------------------
+# _Schedule.get_duration
+# --------------------------------------------------------------------------
+def sgd_ensures(c):
+    h, sch = c.old, T(c.self)
+    res = T(c.res)
+    inc = T(c.include_fall_time)
+    ch = c.channel
+    key = z3.Const("key!sgd", PStr)
+    cs1 = sch_get(h, sch, T(ch.val))
+    end = lambda cs: z3.If(cs_len(h, cs) == 0, 0, s_tf(cs_at(h, cs, cs_len(h, cs) - 1)))
+    out = [(f"single-channel.{nm}", z3.Implies(z3.Not(ch.none), cl) if not isinstance(cl, Q) else
+            Q(cl.sorts, (lambda cl: lambda *vs: (lambda pc: (z3.And(z3.Not(ch.none), pc[0]), pc[1]))(cl.body(*vs)))(cl), pats=cl.pats))
+           for nm, cl in gd_post(h, cs1, inc, res)]
+    return out + [
+        ("all-channels.at-least-every-end", z3.Implies(ch.none, z3.ForAll([key], z3.Implies(sch_has(h, sch, key), res >= end(sch_get(h, sch, key))), patterns=[sch_get(h, sch, key)]))),
+        ("all-channels.plain-is-some-end", z3.Implies(z3.And(ch.none, z3.Not(inc), res != 0), z3.Exists([key], z3.And(sch_has(h, sch, key), res == end(sch_get(h, sch, key)))))),
+        ("nonneg", res >= 0),
+    ]
+
+
+def all_channels_requires(c, only):
+    h, sch = c.old, T(c.self)
+    key = z3.Const("key!acr", PStr)
+    out = []
+    for nm, cl in INV(h, sch_get(h, sch, key), only=only) + EOMWF(h, sch_get(h, sch, key)) + [("valid_channel", valid_channel_f(cs_chan(sch_get(h, sch, key))))]:
+        out.append((f"all-channels.{nm}", lift_over_keys(h, sch, key, cl)))
+    return out
+
+
+contract(SF, "_Schedule.get_duration", props=("C02",),
+         params={"self": ("ref", "_Schedule"), "channel": ("opt", "str"), "include_fall_time": "bool"}, result="int",
+         requires=lambda c: all_channels_requires(c, ("len>=0", "monotone", "kinds", "boundaries-nonneg")),
+         ensures=sgd_ensures,
+         raises={"KeyError": lambda c: z3.And(z3.Not(c.channel.none), z3.Not(sch_has(c.old, T(c.self), T(c.channel.val))))},
+         )
+
+
+# --------------------------------------------------------------------------
+# EOM blocks (C15)
+# --------------------------------------------------------------------------
+from .lib import eb_ti, eb_tf  # noqa: E402
+from .channels import EOMBUF  # noqa: E402
+from pyvc.core import uf as _uf, R as _R  # noqa: E402
+
+EBLOCKS = "_ChannelSchedule.eom_blocks"
+eb_rabi = lambda b: _uf("_EOMSettings.rabi_freq", Ref, _R)(b)
+eb_don = lambda b: _uf("_EOMSettings.detuning_on", Ref, _R)(b)
+
+
+def EOMINV(h, cs, split=None):
+    """INV.9 (structure): only the last block may be open; blocks are ordered; block refs are distinct and allocated."""
+    n = eb_len(h, cs)
+    at = lambda i: eb_at(h, cs, i)
+    alloc = h.get("$alloc")
+    sp = split or []
+    return EOMWF(h, cs) + [
+        ("eom.closed-before-last", Q([I], lambda i: (z3.And(0 <= i, i < n - 1), z3.And(z3.Not(eb_tf_none(h, at(i))), eb_tf(h, at(i)) <= eb_ti(at(i + 1)))),
+                                     pats=lambda i: [at(i)], split=sp)),
+        ("eom.well-ordered", Q([I], lambda i: (z3.And(0 <= i, i < n), z3.And(eb_ti(at(i)) >= 0, z3.Or(eb_tf_none(h, at(i)), eb_ti(at(i)) <= eb_tf(h, at(i))))),
+                               pats=lambda i: [at(i)], split=sp)),
+        ("eom.closed-within-timeline", Q([I], lambda i: (z3.And(0 <= i, i < n, z3.Not(eb_tf_none(h, at(i)))),
+                                                         z3.And(cs_len(h, cs) >= 1, eb_tf(h, at(i)) <= s_tf(cs_at(h, cs, cs_len(h, cs) - 1)))),
+                                         pats=lambda i: [at(i)], split=sp)),
+        ("eom.open-within-timeline", Q([I], lambda i: (z3.And(0 <= i, i < n, eb_tf_none(h, at(i))),
+                                                       z3.And(cs_len(h, cs) >= 1, eb_ti(at(i)) <= s_tf(cs_at(h, cs, cs_len(h, cs) - 1)))),
+                                       pats=lambda i: [at(i)], split=sp)),
+        ("eom.blocks-allocated", Q([I], lambda i: (z3.And(0 <= i, i < n), z3.Select(alloc, at(i))), pats=lambda i: [at(i)], split=sp)),
+        ("eom.blocks-distinct", Q([I, I], lambda i, j: (z3.And(0 <= j, j < i, i < n), at(i) != at(j)), pats=lambda i, j: [(at(i), at(j))], split=sp)),
+    ]
+
+
+def enable_eom_requires(c):
+    cs = S(c)
+    return writer_requires(c) + all_channels_requires(c, ("len>=0", "kinds", "monotone", "boundaries-nonneg") + LRT_HYPS)[0:0] + fad_requires(c)[3:] + EOMINV(c.old, cs) + [
+        ("supports-eom", z3.Not(fnone("Channel", "eom_config", cs_chan(cs)))),
+        ("has-target", cs_len(c.old, cs) >= 1),
+        ("not-in-eom", z3.Not(in_eom(c.old, cs))),
+        ("valid-setpoint", T(c.amp_on) >= 0)]
+
+
+def enable_eom_ensures(c):
+    cs = S(c)
+    ch = cs_chan(cs)
+    n0, n1 = cs_len(c.old, cs), cs_len(c.new, cs)
+    e0, e1 = eb_len(c.old, cs), eb_len(c.new, cs)
+    blk = eb_at(c.new, cs, e0)
+    last0 = cs_at(c.old, cs, n0 - 1)
+    last1 = cs_at(c.new, cs, n1 - 1)
+    buf = s_tf(last1) - s_ti(last1)
+    no_buffer = z3.Or(T(c._skip_buffer), s_tf(last0) == 0)
+    det_off = T(c.detuning_off)
+    return [
+        ("appends-one-open-block", z3.And(e1 == e0 + 1, eb_tf_none(c.new, blk), eb_ti(blk) == s_tf(last1))),
+        ("block-stores-the-setpoint", z3.And(eb_rabi(blk) == T(c.amp_on), eb_don(blk) == T(c.detuning_on), eb_det_off(blk) == det_off)),
+        ("earlier-blocks-kept", Q([I], lambda i: (z3.And(0 <= i, i < e0), eb_at(c.new, cs, i) == eb_at(c.old, cs, i)), pats=lambda i: [eb_at(c.new, cs, i)])),
+        ("in-eom-mode-afterwards", in_eom(c.new, cs)),
+        ("no-buffer-when-skipped-or-empty", z3.Implies(no_buffer, n1 == n0)),
+        ("buffer-of-configured-length", z3.Implies(z3.Not(no_buffer), z3.And(
+            n1 >= n0 + 1, n1 <= n0 + 2, s_ti(last1) == s_tf(cs_at(c.new, cs, n1 - 2)), buf >= EOMBUF(ch), buf >= min_dur(ch), buf < z3.If(EOMBUF(ch) >= min_dur(ch), EOMBUF(ch), min_dur(ch)) + clock(ch),
+            z3.If(det_off != 0, z3.And(s_kind(last1) == PULSE, IS_DETUNED_DELAY(s_pulse(last1)), CONST_DET(s_pulse(last1)) == det_off), s_kind(last1) == DELAY)))),
+        ("buffer-after-fall", z3.Implies(z3.And(z3.Not(no_buffer), z3.Not(T(c._skip_wait_for_fall))), at_rest_before_last(c, cs))),
+        ("within-max-sequence-duration", MAXD(c.new, T(c.self), cs)),
+    ] + prefix(c, cs) + [(f"INV.{nm}", cl) for nm, cl in INV(c.new, cs)] + [(f"EOMINV.{nm}", cl) for nm, cl in EOMINV(c.new, cs, split=[e0])]
+
+
+def at_rest_before_last(c, cs):
+    """the buffer (last new slot) starts after the most recent old pulse has ramped down."""
+    arr0, n0 = cs_arr(c.old, cs), cs_len(c.old, cs)
+    n1 = cs_len(c.new, cs)
+    L = LPSI(arr0, n0, z3.BoolVal(False))
+    return z3.Implies(z3.Not(lps_none(arr0, n0, z3.BoolVal(False))),
+                      s_ti(cs_at(c.new, cs, n1 - 1)) >= s_tf(z3.Select(arr0, L)) + FALL(s_pulse(z3.Select(arr0, L)), cs_chan(cs), in_eom(c.old, cs)))
+
+
+from .pulse import CONST_DET  # noqa: E402
+
+contract(SF, "_Schedule.enable_eom", props=("C15", "C02"),
+         params={"self": ("ref", "_Schedule"), "channel_id": "str", "amp_on": "real", "detuning_on": "real", "detuning_off": "real",
+                 "switching_beams": "opaque", "_skip_buffer": "bool", "_skip_wait_for_fall": "bool"},
+         requires=enable_eom_requires,
+         ensures=enable_eom_ensures,
+         spec_defs=lambda c: [lpsi_def(cs_arr(c.old, S(c)), cs_len(c.old, S(c)), z3.BoolVal(False))],
+         raises={"ValueError": ("only-if", lambda c: z3.Not(max_dur_none(cs_chan(S(c))))),
+                 "RuntimeError": ("only-if", lambda c: z3.Not(sch_maxdur_none(T(c.self))))},
+         modifies={SLOTS: lambda c: [S(c)], EBLOCKS: lambda c: [S(c)], "$alloc": None},
+         exc_safe=False,   # multi-step mutator (fall delay, buffer, block): not exception safe, see DESIGN section 5 item 10
+         )
+
+
+def disable_eom_requires(c):
+    cs = S(c)
+    return writer_requires(c) + EOMINV(c.old, cs) + [("in-eom", in_eom(c.old, cs)), ("has-target", cs_len(c.old, cs) >= 1)]
+
+
+def disable_eom_ensures(c):
+    cs = S(c)
+    ch = cs_chan(cs)
+    n0, n1 = cs_len(c.old, cs), cs_len(c.new, cs)
+    e0 = eb_len(c.old, cs)
+    blk = eb_at(c.old, cs, e0 - 1)
+    last0 = cs_at(c.old, cs, n0 - 1)
+    last1 = cs_at(c.new, cs, n1 - 1)
+    eom = fget("Channel", "eom_config", ch)
+    custom = z3.And(z3.Not(fnone("BaseEOM", "custom_buffer_time", eom)), fget("BaseEOM", "custom_buffer_time", eom) != 0)
+    buf = s_tf(last1) - s_ti(last1)
+    arr0 = cs_arr(c.old, cs)
+    L = LPSI(arr0, n0, z3.BoolVal(False))
+    return [
+        ("same-blocks", z3.And(eb_len(c.new, cs) == e0, Q([I], lambda i: (z3.And(0 <= i, i < e0), eb_at(c.new, cs, i) == eb_at(c.old, cs, i)), pats=lambda i: [eb_at(c.new, cs, i)]) if False else eb_len(c.new, cs) == e0)),
+        ("blocks-kept", Q([I], lambda i: (z3.And(0 <= i, i < e0), eb_at(c.new, cs, i) == eb_at(c.old, cs, i)), pats=lambda i: [eb_at(c.new, cs, i)])),
+        ("closes-last-block-at-channel-end", z3.And(z3.Not(eb_tf_none(c.new, blk)), eb_tf(c.new, blk) == s_tf(last0))),
+        ("not-in-eom-afterwards", z3.Not(in_eom(c.new, cs))),
+        ("no-buffer-when-skipped", z3.Implies(T(c._skip_buffer), n1 == n0)),
+        ("custom-buffer", z3.Implies(z3.And(z3.Not(T(c._skip_buffer)), custom), z3.And(
+            n1 == n0 + 1, s_kind(last1) == DELAY, buf >= EOMBUF(ch), buf >= min_dur(ch), buf < z3.If(EOMBUF(ch) >= min_dur(ch), EOMBUF(ch), min_dur(ch)) + clock(ch)))),
+        ("default-waits-for-fall", z3.Implies(z3.And(z3.Not(T(c._skip_buffer)), z3.Not(custom), z3.Not(lps_none(arr0, n0, z3.BoolVal(False)))),
+                                              s_tf(last1) >= s_tf(z3.Select(arr0, L)) + FALL(s_pulse(z3.Select(arr0, L)), ch, z3.BoolVal(False)))),
+        ("within-max-sequence-duration", MAXD(c.new, T(c.self), cs)),
+    ] + prefix(c, cs) + [(f"INV.{nm}", cl) for nm, cl in INV(c.new, cs)] + [(f"EOMINV.{nm}", cl) for nm, cl in EOMINV(c.new, cs)]
+
+
+contract(SF, "_Schedule.disable_eom", props=("C15", "C02"),
+         params={"self": ("ref", "_Schedule"), "channel_id": "str", "_skip_buffer": "bool"},
+         requires=disable_eom_requires,
+         ensures=disable_eom_ensures,
+         spec_defs=lambda c: [lpsi_def(cs_arr(c.old, S(c)), cs_len(c.old, S(c)), z3.BoolVal(False))],
+         raises={"ValueError": ("only-if", lambda c: z3.Not(max_dur_none(cs_chan(S(c))))),
+                 "RuntimeError": ("only-if", lambda c: z3.Not(sch_maxdur_none(T(c.self))))},
+         modifies={SLOTS: lambda c: [S(c)], "_EOMSettings.tf": lambda c: [eb_at(c.old, S(c), eb_len(c.old, S(c)) - 1)]},
+         exc_safe=False,
          )
